@@ -16,6 +16,7 @@ import (
 	"github.com/PapaCharlie/go-restli/v2/restli"
 	"verif/harness/codec"
 	"verif/harness/hx"
+	"verif/harness/tbl"
 )
 
 type Config struct {
@@ -562,6 +563,9 @@ func Run(cfg Config) *hx.Result {
 	if !generatedBindings {
 		r.OracleFail(hx.Case{Sig: "C02 harness built without the generated bindings (checks.d/C02.json must set gencode)", Op: "-", Impl: "-"})
 		return r
+	}
+	if len(cfg.Replay) == 0 {
+		tbl.Confirm(cfg.Driver, cfg.Module, r)
 	}
 	x := &runner{cfg: cfg, r: r, env: ExtEnv(), bindings: bindings, worlds: map[string]*world{}}
 	x.worlds["plain"] = newWorld(bindings, "", false)
